@@ -13,8 +13,12 @@ Each mutex section of the code is one action.  `flush` is
 `flushMu.Lock; batcher.Flush; [hook]; Reserve (blocks while the buffer is full); flushMu.Unlock; go …`
 i.e. the actions `lock`, `flushA`, `flushB`.  With `atomic = false` the `lock` action ignores the mutex:
 that is the code before the repair of D17 (kept for the regression witness).
-`Drain` holds the buffer mutex while it sends to `Output`, so a drain is one action whose outputs are
-appended to the output sequence in the order of the loop.
+`Drain` holds the buffer mutex (`b.mu`) for the whole loop, also while it is blocked sending to a full `Output`
+channel: `drainStart` takes the mutex, `drainNext` dequeues the next sequence number (or ends the drain and releases
+the mutex), `send` puts one result into `Output` (enabled only while the channel has room), and the consumer's `recv`
+takes one result out (for an unbuffered channel directly from the blocked sender). `buffer.Add` (`fetchDone`) needs
+the same mutex. A fetch that returns an error still calls `buffer.Add` with its (empty) result, so its sequence
+number is drained like any other: `fails` says which fetches fail.
 -/
 namespace Rxn.Reorder
 open Rxn
@@ -49,11 +53,15 @@ structure St (α ρ : Type) where
   drainedSeq : Nat := 0              -- `drainedSeqNum`
   items : Nat → Option (List ρ) := fun _ => none   -- `items`
   inflight : List (Nat × List α) := []             -- fetch goroutines before `buffer.Add`
-  drainers : Nat := 0                -- fetch goroutines after `buffer.Add`, before their `Drain`
+  drainers : Nat := 0                -- fetch goroutines after `buffer.Add` that have not finished their `Drain`
+  drainer : Option (List ρ) := none  -- the goroutine inside `Drain` (holds `b.mu`): results of the dequeued batch still to send
+  ocap : Nat := 0                    -- cap(Output) (`BufferSize` as given)
+  outq : List ρ := []                -- contents of the `Output` channel
+  errs : Nat := 0                    -- errors sent to `errChan`
 
 /-- `NewReorderFetcher` over `NewEventBatcher` -/
 def init {α ρ : Type} (maxSize : Nat) (hasDelay : Bool) (bufferSize : Nat) : St α ρ :=
-  { b := Batcher.new maxSize hasDelay, cap := if bufferSize = 0 then 1 else bufferSize }
+  { b := Batcher.new maxSize hasDelay, cap := if bufferSize = 0 then 1 else bufferSize, ocap := bufferSize }
 
 def pc {α ρ : Type} (s : St α ρ) : Tid → Pc α
   | .prod => s.pp
@@ -78,29 +86,25 @@ inductive Act (α : Type) where
   | lock (t : Tid)        -- `flushMu.Lock()`
   | flushA (t : Tid)      -- `batcher.Flush(CurrentBatch)`
   | flushB (t : Tid)      -- empty: unlock, return; else `Reserve` (blocks when full), unlock, spawn fetch
-  | fetchDone (seq : Nat) -- fetch goroutine: `buffer.Add(seq, result)`
-  | drain                 -- fetch goroutine: `buffer.Drain()` loop, sends to `Output`
+  | fetchDone (seq : Nat) -- fetch goroutine: (error ⇒ `errChan <- err`) `buffer.Add(seq, result)`
+  | drainStart            -- a fetch goroutine enters `buffer.Drain()`: `b.mu.Lock()`
+  | drainNext             -- next loop iteration: dequeue `items[drainedSeqNum]`, or end the drain (`b.mu.Unlock()`)
+  | send                  -- `d.Output <- result` (needs room in the channel)
+  | recv                  -- the consumer receives from `Output`
 deriving Repr
-
-/-- the `Drain` loop: emit while the next sequence number is present. Each iteration receives from the
-`reserved` channel (the model stops where the code would block, which the invariant excludes). -/
-def drainLoop {ρ : Type} (items : Nat → Option (List ρ)) : Nat → Nat →
-    List ρ × (Nat → Option (List ρ)) × Nat × Nat
-  | 0, d => ([], items, 0, d)
-  | r + 1, d =>
-    match items d with
-    | none => ([], items, r + 1, d)
-    | some x =>
-      let res := drainLoop (fun k => if k = d then none else items k) r (d + 1)
-      (x ++ res.1, res.2)
 
 def lookupSeq {α : Type} (seq : Nat) : List (Nat × List α) → Option (List α)
   | [] => none
   | (k, e) :: rest => if k = seq then some e else lookupSeq seq rest
 
+/-- result of the fetch for the batch with sequence number `p.1`: a failed fetch hands `buffer.Add` an empty result -/
+def resultOf {α ρ : Type} (f : List α → List ρ) (fails : Nat → Bool) (p : Nat × List α) : List ρ :=
+  if fails p.1 then [] else f p.2
+
 /-- one action; `none` = not enabled (the thread is blocked or not at that point). The second component
-is what is sent to `Output`. -/
-def step {α ρ : Type} (f : List α → List ρ) (atomic : Bool) (s : St α ρ) : Act α → Option (St α ρ × List ρ)
+is what the consumer received from `Output`. -/
+def step {α ρ : Type} (f : List α → List ρ) (fails : Nat → Bool) (atomic : Bool) (s : St α ρ) :
+    Act α → Option (St α ρ × List ρ)
   | .pAdd x =>
     match s.pp with
     | .idle => some ({ s with b := Batcher.add s.b x, pp := .added }, [])
@@ -141,18 +145,44 @@ def step {α ρ : Type} (f : List α → List ρ) (atomic : Bool) (s : St α ρ)
       else none
     | _ => none
   | .fetchDone seq =>
-    match lookupSeq seq s.inflight with
-    | some evs =>
+    match s.drainer, lookupSeq seq s.inflight with
+    | none, some evs =>
       some ({ s with inflight := s.inflight.filter (fun p => p.1 != seq),
-                     items := fun k => if k = seq then some (f evs) else s.items k,
-                     drainers := s.drainers + 1 }, [])
-    | none => none
-  | .drain =>
-    match s.drainers with
-    | 0 => none
-    | n + 1 =>
-      let r := drainLoop s.items s.reserved s.drainedSeq
-      some ({ s with drainers := n, items := r.2.1, reserved := r.2.2.1, drainedSeq := r.2.2.2 }, r.1)
+                     items := fun k => if k = seq then some (resultOf f fails (seq, evs)) else s.items k,
+                     drainers := s.drainers + 1,
+                     errs := if fails seq then s.errs + 1 else s.errs }, [])
+    | _, _ => none
+  | .drainStart =>
+    match s.drainer, s.drainers with
+    | none, _ + 1 => some ({ s with drainer := some [] }, [])
+    | _, _ => none
+  | .drainNext =>
+    match s.drainer with
+    | some [] =>
+      match s.items s.drainedSeq with
+      | some x =>
+        match s.reserved with
+        | r + 1 =>
+          some ({ s with items := fun k => if k = s.drainedSeq then none else s.items k,
+                         drainedSeq := s.drainedSeq + 1, reserved := r, drainer := some x }, [])
+        | 0 => none                                 -- would block on `<-b.reserved` (excluded by the invariant)
+      | none =>
+        match s.drainers with
+        | n + 1 => some ({ s with drainer := none, drainers := n }, [])
+        | 0 => none
+    | _ => none
+  | .send =>
+    match s.drainer with
+    | some (x :: rest) =>
+      if s.outq.length < s.ocap then some ({ s with outq := s.outq ++ [x], drainer := some rest }, []) else none
+    | _ => none
+  | .recv =>
+    match s.outq with
+    | x :: q => some ({ s with outq := q }, [x])
+    | [] =>
+      match s.ocap, s.drainer with
+      | 0, some (x :: rest) => some ({ s with drainer := some rest }, [x])   -- unbuffered: straight from the sender
+      | _, _ => none
 
 /-- what an action adds to the input sequence -/
 def inputOf {α : Type} : Act α → List α
@@ -161,25 +191,26 @@ def inputOf {α : Type} : Act α → List α
 
 def inputs {α : Type} (as : List (Act α)) : List α := (as.map inputOf).flatten
 
-/-- a run with its ghost history: all items added so far and everything sent to `Output` so far -/
+/-- a run with its ghost history: all items added so far and everything the consumer received from `Output` so far -/
 structure Run (α ρ : Type) where
   st : St α ρ
   ins : List α := []
   out : List ρ := []
 
-def exec {α ρ : Type} (f : List α → List ρ) (atomic : Bool) : Run α ρ → List (Act α) → Option (Run α ρ)
+def exec {α ρ : Type} (f : List α → List ρ) (fails : Nat → Bool) (atomic : Bool) :
+    Run α ρ → List (Act α) → Option (Run α ρ)
   | r, [] => some r
   | r, a :: as =>
-    match step f atomic r.st a with
+    match step f fails atomic r.st a with
     | none => none
-    | some (s', o) => exec f atomic { st := s', ins := r.ins ++ inputOf a, out := r.out ++ o } as
+    | some (s', o) => exec f fails atomic { st := s', ins := r.ins ++ inputOf a, out := r.out ++ o } as
 
 def Pc.isIdle {α : Type} : Pc α → Bool
   | .idle => true
   | _ => false
 
-/-- nothing left to do: both flushers idle, batch empty, no fetch goroutine alive -/
+/-- nothing left to do: both flushers idle, batch empty, no fetch goroutine alive, `Output` read empty -/
 def quiescent {α ρ : Type} (s : St α ρ) : Prop :=
-  s.pp.isIdle = true ∧ s.tp.isIdle = true ∧ s.b.batch = [] ∧ s.inflight = [] ∧ s.drainers = 0
+  s.pp.isIdle = true ∧ s.tp.isIdle = true ∧ s.b.batch = [] ∧ s.inflight = [] ∧ s.drainers = 0 ∧ s.outq = []
 
 end Rxn.Reorder
